@@ -131,7 +131,7 @@ func init() {
 	}
 	registry["C09"] = func() Check {
 		return &SeqCheck{Prop: "C09",
-			Ideal: famIds(2, 1, 5), IdealDeep: famIds(3, 1, 6), IdealProps: []string{"P_C09"}, IdealInvs: []string{"CodePruneIsSpecPrune"}, Probes: probeReissue,
+			Ideal: famIds(2, 1, 5), IdealDeep: famIds(3, 1, 6), IdealProps: []string{"P_C09"}, IdealInvs: []string{"CodePruneIsSpecPrune"}, Probes: append(append([]emitted{}, probeReissue...), probeAfterPrune...),
 			Proc:     &ProcCheck{Prop: "C09", Scenarios: "PruneScenarios", IdealInvs: []string{"Serializable"}, Only: []string{"C09_serial"}},
 			GenQuick: famIds(2, 1, 4), GenThorough: famIds(2, 1, 6), SampleQuick: 100,
 			CraftQuick: famCraft(1200, "prune", "prune_dry"), CraftThorough: famCraft(8000, "prune", "prune_dry"),
@@ -139,7 +139,7 @@ func init() {
 	}
 	registry["C10"] = func() Check {
 		return &SeqCheck{Prop: "C10",
-			Ideal: famFull(3), IdealDeep: famFull(4), IdealProps: []string{"P_C10"}, Probes: append(append(append([]emitted{}, probeHalf...), probeD10...), probeTorn...),
+			Ideal: famFull(3), IdealDeep: famFull(4), IdealProps: []string{"P_C10"}, Extra: textRejects, Probes: append(append(append([]emitted{}, probeHalf...), probeD10...), probeTorn...),
 			Proc:     &ProcCheck{Prop: "C10", Scenarios: "FailScenarios", IdealInvs: []string{"Serializable"}, Only: []string{"C10_serial"}},
 			GenQuick: famFull(2), GenThorough: famFullModes(3), SampleQuick: 60,
 			Sim: with(famFullModes(10), func(m *SeqModel) { m.MaxTasks = 3 }), SimNumQuick: 100, SimNumThorough: 3000}
@@ -147,7 +147,8 @@ func init() {
 	registry["C11"] = func() Check {
 		return &SeqCheck{Prop: "C11",
 			Ideal: famPlan(3), IdealDeep: famPlan(4), IdealProps: []string{"P_C11"}, Probes: probePlanIDs,
-			GenQuick: famPlan(2), GenThorough: famPlan(4), SampleQuick: 100,
+			GenQuick: with(famPlan(2), func(m *SeqModel) { m.Extras = append(m.Extras, "trailing") }),
+			GenThorough: with(famPlan(4), func(m *SeqModel) { m.Extras = append(m.Extras, "trailing") }), SampleQuick: 100,
 			Sim: famPlan(8), SimNumQuick: 60, SimNumThorough: 1500}
 	}
 	registry["C14"] = func() Check {
@@ -167,7 +168,7 @@ func init() {
 	}
 	registry["C16"] = func() Check {
 		return &SeqCheck{Prop: "C16",
-			Ideal: famFull(3), IdealDeep: famFull(4), IdealProps: []string{"P_C16"}, Probes: probeHalf,
+			Ideal: famFull(3), IdealDeep: famFull(4), IdealProps: []string{"P_C16"}, Probes: append(append([]emitted{}, probeHalf...), probePlanIDs...),
 			Proc:     &ProcCheck{Prop: "C16", Scenarios: "PruneScenarios", IdealInvs: []string{"Serializable"}, Only: []string{"C16_prune_truth"}},
 			GenQuick: famFull(2), GenThorough: famFullModes(3), SampleQuick: 60,
 			Sim: with(famFullModes(10), func(m *SeqModel) { m.MaxTasks = 3 }), SimNumQuick: 100, SimNumThorough: 3000}
@@ -182,6 +183,16 @@ func init() {
 		return &SeqCheck{Prop: "C05",
 			Ideal: famCompact(4), IdealDeep: famCompact(6), IdealProps: []string{"P_C05"}, Probes: append(append([]emitted{}, probeCompact...), probeClaimOrder...),
 			GenQuick: famCompact(4), GenThorough: famCompact(6), SampleQuick: 150,
+			// dependency edges (task and epic) across compactions
+			GenMore: []SeqModel{
+				with(famGraph(2, 2, 5), func(m *SeqModel) {
+					m.Name = "compact-graph"
+					m.CmdNames = []string{"new_task", "new_epic", "sequence", "sequence_rm", "set", "compact"}
+					m.StateArgs = []string{"done"}
+					m.ViewMode = "timed"
+					m.AlphaOnly = []string{"compact"}
+				}),
+			},
 			// (random crafted stores are NOT used here: C05 quantifies over histories ergo can
 			// produce plus legacy logs; a hand-made "canceled but claimed" item does lose its
 			// claim in compaction, which is outside the property)
@@ -190,7 +201,7 @@ func init() {
 	}
 	registry["C12"] = func() Check {
 		return &SeqCheck{Prop: "C12",
-			Ideal: famFull(3), IdealDeep: famFull(4), IdealProps: []string{"P_C12"}, Extra: fileCases, Probes: probeTorn,
+			Ideal: famFull(3), IdealDeep: famFull(4), IdealProps: []string{"P_C12"}, Extra: fileCases, Probes: append(append([]emitted{}, probeTorn...), probeAfterPrune...),
 			GenQuick: famFull(2), GenThorough: famFullModes(3), SampleQuick: 60,
 			Sim: with(famFullModes(10), func(m *SeqModel) { m.MaxTasks = 3 }), SimNumQuick: 100, SimNumThorough: 3000}
 	}
